@@ -547,6 +547,13 @@ def p46(): return lambda root46: pick_h(root46.v)
 def via_h(x, f=lambda v: v.two, *, g=(lambda v: v.half)): return (f(x).three, g(x))
 def d47(ds): return ds.Select(lambda e: via_h(e.a))
 def p47(): return lambda e: via_h(e.a)
+# defaults REPLACED after the def by a tuple of another length: python gives them to the last parameters
+def longer_h(x, k=2.0): return x.f(k)
+longer_h.__defaults__ = (7.5, 4.0)
+def shorter_h(x, a=1.0, b=2.0): return x.g(a, b)
+shorter_h.__defaults__ = (9.0,)
+def d48(ds): return ds.Select(lambda e: (longer_h(e.a), shorter_h(e.b, e.c)))
+def p48(): return lambda e: (longer_h(e.a), shorter_h(e.b, e.c))
 # a captured lambda assigned the ordinary way
 add_one = lambda x: x.plus1
 def d25(ds): return ds.Select(lambda e: add_one(e.v))
@@ -570,7 +577,7 @@ def p6(): return lambda e: e.jets.Select(lambda j: two(j, e))
 
 def directed(ctx):
     m = modgen.load(DIRECTED, "c05d")
-    env = {n: getattr(m, n) for n in ("ident", "const", "sh", "addy", "two", "outer", "add3", "deep", "inner_kw", "outer_kw", "add_to_all", "table", "five_plus", "shifted", "corrected", "next_one", "after_deco", "nothing", "plus_1", "plus_1_then_10", "scale2", "inner_s", "outer_s", "helper_k", "h_b", "h_c", "add_one", "calibrated", "to_gev", "offset", "adder", "call_with_y", "plus_one", "inc_h", "apply_h", "bump_h", "twice_h", "compose_h", "cut10", "cut20", "in_a", "in_b", "up2", "down2", "made_hh", "stepped_h", "root_c05", "dist_h", "hyp_h", "corrected_h", "rescaled_h", "band_h", "pick_h", "root46", "via_h")}
+    env = {n: getattr(m, n) for n in ("ident", "const", "sh", "addy", "two", "outer", "add3", "deep", "inner_kw", "outer_kw", "add_to_all", "table", "five_plus", "shifted", "corrected", "next_one", "after_deco", "nothing", "plus_1", "plus_1_then_10", "scale2", "inner_s", "outer_s", "helper_k", "h_b", "h_c", "add_one", "calibrated", "to_gev", "offset", "adder", "call_with_y", "plus_one", "inc_h", "apply_h", "bump_h", "twice_h", "compose_h", "cut10", "cut20", "in_a", "in_b", "up2", "down2", "made_hh", "stepped_h", "root_c05", "dist_h", "hyp_h", "corrected_h", "rescaled_h", "band_h", "pick_h", "root46", "via_h", "longer_h", "shorter_h")}
     tags = ["bare-parameter", "constant-body", "nested-lambda-shadows-parameter", "argument-captured-by-inner-binder", "reordered-keywords", "helper-calls-helper", "call-in-nested-lambda", "curried-two-deep-lambdas-argument-names-innermost", "two-deep-nested-lambdas-argument-names-innermost",
             "keyword-only-parameter-hides-argument", "default-of-a-lambda-that-stays", "new-name-already-bound-in-scope", "keyword-of-a-call-that-stays", "default-bound-at-definition",
             "bound-method", "functools-wraps-wrapper", "lambda-on-the-decorator-line", "bare-return", "closures-of-one-factory-calling-each-other",
@@ -582,7 +589,7 @@ def directed(ctx):
             "sibling-lambdas-of-one-comprehension-differing-in-defaults", "closures-of-one-factory-differing-in-defaults",
             "function-default-written-with-a-loop-variable", "function-default-written-with-a-factory-parameter", "function-default-whose-name-was-deleted",
             "early-bound-function-name-bound-by-the-passed-lambda", "early-bound-function-name-bound-by-an-outer-helper",
-            "defaults-on-positional-only-ordinary-and-keyword-only-parameters", "constant-defaults-replaced-after-the-def", "tuple-default-holding-inf", "function-called-in-a-comprehension-condition-named-like-the-lambda-parameter", "function-defaults-written-as-lambdas-on-the-spot"]
+            "defaults-on-positional-only-ordinary-and-keyword-only-parameters", "constant-defaults-replaced-after-the-def", "tuple-default-holding-inf", "function-called-in-a-comprehension-condition-named-like-the-lambda-parameter", "function-defaults-written-as-lambdas-on-the-spot", "defaults-replaced-by-a-tuple-of-another-length"]
     for i, tag in enumerate(tags):
         ctx.case("directed:" + tag, True)
         expected = probe.behaviour(getattr(m, f"p{i}")())
